@@ -502,9 +502,70 @@ func (fo *folder) foldStmt(s ast.Stmt, within *ast.FuncDecl) ([]ast.Stmt, bool) 
 			tok = token.ASSIGN
 		}
 	}
+	if !tail && tok == token.DEFINE && len(targets) > 0 {
+		// `u, err := h()` where every return of h yields the same local at a slot (`return nil, err` … `return x, err`):
+		// the caller's new variable is that local from now on
+		slot := make([]map[types.Object]bool, len(targets))
+		okSlots := true
+		ast.Inspect(body, func(x ast.Node) bool {
+			switch r := x.(type) {
+			case *ast.FuncLit:
+				return false
+			case *ast.ReturnStmt:
+				if len(r.Results) != len(targets) {
+					if len(r.Results) != 0 {
+						// a multi-valued call: says nothing about the slots
+						return true
+					}
+					return true
+				}
+				for j, e := range r.Results {
+					if slot[j] == nil {
+						slot[j] = map[types.Object]bool{}
+					}
+					if id := identOf(e); id != nil && !IsNil(fo.info, e) {
+						if v, ok := fo.info.Uses[id].(*types.Var); ok && !v.IsField() && v.Parent() != nil && v.Pkg() != nil && v.Parent() != v.Pkg().Scope() {
+							slot[j][v] = true
+							continue
+						}
+					}
+					if ConstOf(fo.info, e) != nil || IsNil(fo.info, e) {
+						continue // constants do not identify a variable
+					}
+					slot[j][nil] = true
+				}
+			}
+			return true
+		})
+		_ = okSlots
+		for j, t := range targets {
+			tid := identOf(t)
+			if tid == nil || tid.Name == "_" || len(slot[j]) != 1 {
+				continue
+			}
+			var neu types.Object
+			for o := range slot[j] {
+				neu = o
+			}
+			old := fo.info.Defs[tid]
+			if neu == nil || old == nil {
+				continue
+			}
+			if _, isParam := cl.subst[neu]; isParam {
+				continue
+			}
+			ast.Inspect(within.Body, func(x ast.Node) bool {
+				if id, ok := x.(*ast.Ident); ok && fo.info.Uses[id] == old {
+					fo.info.Uses[id] = neu
+				}
+				return true
+			})
+			fo.info.Defs[tid] = neu
+		}
+	}
 	if !tail {
 		var ok bool
-		stmts, ok = eliminateReturns(fo.info, stmts, targets, tok, named)
+		stmts, ok = eliminateReturns(fo.info, stmts, targets, tok, named, cl)
 		if !ok {
 			return nil, false
 		}
@@ -690,9 +751,11 @@ func (fo *folder) renumber(fd *ast.FuncDecl) {
 }
 
 // eliminateReturns rewrites a statement list whose returns end a spliced-in helper: `return a, b` becomes
-// `targets = a, b` and the statements that follow a conditional return move into the other branch.  ok is false when
-// the shape cannot be expressed without jumps (a return inside a loop, or inside a switch that is followed by more code).
-func eliminateReturns(info *types.Info, list []ast.Stmt, targets []ast.Expr, tok token.Token, named []ast.Expr) ([]ast.Stmt, bool) {
+// `targets = a, b`, and the statements that would run after a conditional return are moved (copied, when several
+// branches fall through) into the branches that do not return.  ok is false when the shape cannot be expressed without
+// jumps (a return inside a loop or select) or the copy would grow unreasonably.
+func eliminateReturns(info *types.Info, list []ast.Stmt, targets []ast.Expr, tok token.Token, named []ast.Expr, cl *cloner) ([]ast.Stmt, bool) {
+	budget := 600
 	assign := func(r *ast.ReturnStmt) []ast.Stmt {
 		res := r.Results
 		if len(res) == 0 {
@@ -724,8 +787,7 @@ func eliminateReturns(info *types.Info, list []ast.Stmt, targets []ast.Expr, tok
 		}
 		return []ast.Stmt{&ast.AssignStmt{Lhs: targets, Tok: tok, Rhs: res, TokPos: r.Pos()}}
 	}
-	var hasReturn func(n ast.Node) bool
-	hasReturn = func(n ast.Node) bool {
+	hasReturn := func(n ast.Node) bool {
 		found := false
 		ast.Inspect(n, func(x ast.Node) bool {
 			switch x.(type) {
@@ -738,101 +800,108 @@ func eliminateReturns(info *types.Info, list []ast.Stmt, targets []ast.Expr, tok
 		})
 		return found
 	}
-	var process func(list []ast.Stmt) ([]ast.Stmt, bool, bool) // (new list, terminates, ok)
-	process = func(list []ast.Stmt) ([]ast.Stmt, bool, bool) {
+	used := map[ast.Stmt]bool{}
+	// fresh returns the continuation, copied if it was already placed somewhere
+	fresh := func(cont []ast.Stmt) []ast.Stmt {
+		var out []ast.Stmt
+		for _, s := range cont {
+			if used[s] {
+				cl.depth++
+				c := cl.node(s).(ast.Stmt)
+				cl.depth--
+				out = append(out, c)
+				budget -= 5
+			} else {
+				used[s] = true
+				out = append(out, s)
+			}
+		}
+		return out
+	}
+	var process func(list, cont []ast.Stmt) ([]ast.Stmt, bool)
+	process = func(list, cont []ast.Stmt) ([]ast.Stmt, bool) {
+		if budget <= 0 {
+			return nil, false
+		}
 		var out []ast.Stmt
 		for i, s := range list {
+			budget--
 			if !hasReturn(s) {
 				out = append(out, s)
 				continue
 			}
-			rest := list[i+1:]
+			after := append(append([]ast.Stmt{}, list[i+1:]...), cont...)
 			switch x := s.(type) {
 			case *ast.ReturnStmt:
-				return append(out, assign(x)...), true, true
+				return append(out, assign(x)...), true
 			case *ast.BlockStmt:
-				inner, term, ok := process(x.List)
+				inner, ok := process(x.List, after)
 				if !ok {
-					return nil, false, false
+					return nil, false
 				}
-				out = append(out, inner...)
-				if term {
-					return out, true, true
-				}
-				continue
+				return append(out, inner...), true
 			case *ast.IfStmt:
-				thenL, thenT, ok1 := process(x.Body.List)
-				var elseL []ast.Stmt
-				elseT, ok2 := false, true
+				thenL, ok1 := process(x.Body.List, after)
+				var elseStmts []ast.Stmt
 				switch e := x.Else.(type) {
-				case nil:
 				case *ast.BlockStmt:
-					elseL, elseT, ok2 = process(e.List)
+					elseStmts = e.List
 				case *ast.IfStmt:
-					elseL, elseT, ok2 = process([]ast.Stmt{e})
+					elseStmts = []ast.Stmt{e}
 				}
+				elseL, ok2 := process(elseStmts, after)
 				if !ok1 || !ok2 {
-					return nil, false, false
+					return nil, false
 				}
-				restL, restT, ok3 := process(rest)
-				if !ok3 {
-					return nil, false, false
-				}
-				n := &ast.IfStmt{If: x.If, Init: x.Init, Cond: x.Cond}
-				switch {
-				case thenT && elseT:
-					n.Body = &ast.BlockStmt{Lbrace: x.Body.Lbrace, List: thenL, Rbrace: x.Body.Rbrace}
+				n := &ast.IfStmt{If: x.If, Init: x.Init, Cond: x.Cond, Body: &ast.BlockStmt{Lbrace: x.Body.Lbrace, List: thenL, Rbrace: x.Body.Rbrace}}
+				if len(elseL) > 0 {
 					n.Else = &ast.BlockStmt{List: elseL}
-					return append(out, n), true, true
-				case thenT:
-					n.Body = &ast.BlockStmt{Lbrace: x.Body.Lbrace, List: thenL, Rbrace: x.Body.Rbrace}
-					if len(elseL)+len(restL) > 0 {
-						n.Else = &ast.BlockStmt{List: append(elseL, restL...)}
-					}
-					return append(out, n), restT, true
-				case elseT:
-					n.Body = &ast.BlockStmt{Lbrace: x.Body.Lbrace, List: append(thenL, restL...), Rbrace: x.Body.Rbrace}
-					n.Else = &ast.BlockStmt{List: elseL}
-					return append(out, n), restT, true
-				default:
-					return nil, false, false // a return nested deeper without ending its branch
 				}
+				return append(out, n), true
 			case *ast.SwitchStmt, *ast.TypeSwitchStmt:
-				if len(rest) > 0 {
-					// allowed only when every clause that contains a return ends with it and the rest is return-free:
-					// then the rest would have to be skipped after those clauses, which needs a jump
-					return nil, false, false
-				}
 				var body *ast.BlockStmt
 				if sw, ok := x.(*ast.SwitchStmt); ok {
 					body = sw.Body
 				} else {
 					body = x.(*ast.TypeSwitchStmt).Body
 				}
-				allTerm, hasDefault := true, false
+				hasDefault := false
 				for _, c := range body.List {
 					cc := c.(*ast.CaseClause)
 					if cc.List == nil {
 						hasDefault = true
 					}
-					nl, term, ok := process(cc.Body)
+					for _, bs := range cc.Body {
+						if br, ok := bs.(*ast.BranchStmt); ok && br.Tok == token.FALLTHROUGH {
+							return nil, false
+						}
+					}
+					nl, ok := process(cc.Body, after)
 					if !ok {
-						return nil, false, false
+						return nil, false
 					}
 					cc.Body = nl
-					if !term {
-						allTerm = false
-					}
 				}
-				return append(out, s), allTerm && hasDefault, true
+				if !hasDefault && len(after) > 0 {
+					body.List = append(body.List, &ast.CaseClause{Case: body.Rbrace, Body: fresh(after)})
+				}
+				return append(out, s), true
 			default:
-				return nil, false, false // return inside a loop, select, …
+				return nil, false // return inside a loop, select, …
 			}
 		}
-		return out, false, true
+		if len(cont) == 0 {
+			return out, true
+		}
+		// the list fell through: what follows the enclosing statement runs next (and may itself return)
+		more, ok := process(fresh(cont), nil)
+		if !ok {
+			return nil, false
+		}
+		return append(out, more...), true
 	}
-	out, _, ok := process(list)
-	return out, ok
+	out, ok := process(list, nil)
+	return out, ok && budget > 0
 }
 
 // ---- cloning with type information ---------------------------------------------------
